@@ -173,6 +173,24 @@ theorem plainIP_prechecks (s : Str) (hp : Spec.plainIP s = true) : s.isEmpty = f
     simp only [Spec.isIpChar, isHexDigit, isDigit, Bool.or_eq_true, Bool.and_eq_true, decide_eq_true_eq] at this
     omega
 
+theorem splitFirst_none_of_not_mem (sep : Nat) (s : Str) (h : sep ∉ s) : splitFirst sep s = none := by
+  induction s with
+  | nil => rfl
+  | cons c cs ih =>
+    simp only [List.mem_cons, not_or] at h
+    have hc : c ≠ sep := fun e => h.1 e.symm
+    simp [splitFirst, hc, ih h.2]
+
+/-- plain address text has no `%`, hence no zone id -/
+theorem plainIP_zone (s : Str) (hp : Spec.plainIP s = true) : (zoneId s).contains 58 = false := by
+  simp only [Spec.plainIP, Bool.and_eq_true] at hp
+  have hall := hp.1
+  have h37 : 37 ∉ s := by
+    intro hm'
+    have := List.all_eq_true.mp hall 37 hm'
+    revert this; decide
+  simp [zoneId, splitFirst_none_of_not_mem 37 s h37]
+
 /-! ### the RFC classes of `SpecExt.lean` coincide with the model's -/
 
 theorem rfcTchar_eq (c : Nat) : Spec.rfcTchar c = isTchar c := by
